@@ -675,8 +675,15 @@ func (s *Service) handleBackup(w http.ResponseWriter, r *http.Request, qp QueryP
 	}
 	addBackupFormatHeader(w, qp)
 
-	addr, err := s.proxy.Backup(r.Context(), br, w, makeCredentials(r), qp.Timeout(defaultTimeout), qp.Redirect())
+	bw := &backupResponseWriter{ResponseWriter: w}
+	addr, err := s.proxy.Backup(r.Context(), br, bw, makeCredentials(r), qp.Timeout(defaultTimeout), qp.Redirect())
 	if err != nil {
+		if bw.started {
+			// Part of the backup has already been sent with a 200 status, so the only way
+			// left to tell the client that the backup is incomplete is to break the response.
+			s.logger.Printf("backup failed after response started: %s", err.Error())
+			panic(http.ErrAbortHandler)
+		}
 		if errors.Is(err, proxy.ErrNotLeader) {
 			s.DoRedirect(w, r, qp)
 			return
@@ -700,6 +707,20 @@ func (s *Service) handleBackup(w http.ResponseWriter, r *http.Request, qp QueryP
 	w.Header().Set(ServedByHTTPHeader, addr)
 
 	s.lastBackup = time.Now()
+}
+
+// backupResponseWriter records whether any part of a backup has been written
+// to the HTTP response.
+type backupResponseWriter struct {
+	http.ResponseWriter
+	started bool
+}
+
+func (b *backupResponseWriter) Write(p []byte) (int, error) {
+	if len(p) > 0 {
+		b.started = true
+	}
+	return b.ResponseWriter.Write(p)
 }
 
 // handleLoad loads the database from the given SQLite database file or SQLite dump.
